@@ -1,6 +1,8 @@
 package main
 
 import (
+	"bytes"
+	"context"
 	"fmt"
 	"io/fs"
 	"os"
@@ -69,6 +71,7 @@ type c11 struct {
 	tgts []target
 	ext  *extOracles
 
+	load      sync.RWMutex // see runCompiler
 	mu        sync.Mutex
 	sigSeen   map[string]int
 	crashSeen map[string]int
@@ -97,13 +100,17 @@ var (
 	reWord    = regexp.MustCompile(`[A-Za-z_][A-Za-z0-9_]*`)
 	reSpaces  = regexp.MustCompile(`\s+`)
 	reAnsi    = regexp.MustCompile("\x1b\\[[0-9;]*m")
+	reWarning = regexp.MustCompile("(?m)^\x1b\\[33m.*$")
+	reIDLFile = regexp.MustCompile(`\S+\.(?:frugal|thrift):?`)
 )
 
 // normalise reduces a diagnostic to its class: paths dropped, identifiers of
 // the program replaced by X, digits by N.
 func normalise(diag string, u *unit) string {
-	d := reAnsi.ReplaceAllString(diag, "")
+	d := reWarning.ReplaceAllString(diag, "") // warnings printed before the failure
+	d = reAnsi.ReplaceAllString(d, "")
 	d = strings.ReplaceAll(d, "Failed to generate", "")
+	d = reIDLFile.ReplaceAllString(d, "")
 	d = rePathTok.ReplaceAllString(d, "")
 	d = reWord.ReplaceAllStringFunc(d, func(w string) string {
 		if u != nil && (u.Names[w] || u.Names[strings.ToLower(w)]) {
@@ -132,6 +139,13 @@ func attribute(u *unit, tgt, diag string) string {
 	}
 	if u.Class != "" && u.has(u.ClassTag) {
 		return u.Class
+	}
+	// a stress pool whose own construct was not drawn may still carry another
+	// class's construct (method_returns_typedef_enum implies typedef_of_enum)
+	for _, sc := range stressClasses() {
+		if sc.Name != "const_map_non_string_keys" && u.has(sc.Tag) {
+			return sc.Name
+		}
 	}
 	return "core(" + normalise(diag, u) + ")"
 }
@@ -243,12 +257,59 @@ func (c *c11) writeUnit(u *unit) error {
 	return nil
 }
 
-// runCompiler runs the compiler with the 20 s watchdog, retrying once on expiry.
+// runCompiler runs the compiler under the watchdog.  On expiry the run is
+// repeated once with the machine to itself (every other compiler run of this
+// process waits): a run that is merely slow under 16-way load, e.g. a process
+// growing a 1 GB stack before the Go runtime aborts it, then shows what it is.
 func (c *c11) runCompiler(dir string, watchdog time.Duration, args ...string) *emit.Result {
-	r := emit.Run(c.bin, dir, watchdog, args...)
+	c.load.RLock()
+	r := runLimited(c.bin, dir, watchdog, args...)
+	c.load.RUnlock()
 	if r.TimedOut {
+		// the second attempt decides: alone, and with six times the patience
+		// (other checks may be loading the machine); an endless loop is still
+		// there after 2 minutes, a slow crash is not
 		c.run.Add("watchdog_retries", 1)
-		r = emit.Run(c.bin, dir, watchdog, args...)
+		c.load.Lock()
+		r = runLimited(c.bin, dir, 6*watchdog, args...)
+		c.load.Unlock()
+	}
+	return r
+}
+
+// addressSpaceLimitKB caps the address space of a compiler child (ulimit -v):
+// a runaway recursion then ends as "fatal error: out of memory" within seconds
+// instead of eating tens of GB until the watchdog fires (observed: 28 GB in
+// 60 s for a typedef cycle through containers, -gen py).  The natural outcome
+// of unbounded recursion, "goroutine stack exceeds 1000000000-byte limit",
+// still fits (needs < 1.6 GB); no legitimate compilation here needs 1 GB.
+const addressSpaceLimitKB = 3000000
+
+// runLimited is emit.Run under the address-space limit.
+func runLimited(bin, dir string, watchdog time.Duration, args ...string) *emit.Result {
+	ctx, cancel := context.WithTimeout(context.Background(), watchdog)
+	defer cancel()
+	sh := append([]string{"-c", fmt.Sprintf(`ulimit -v %d 2>/dev/null; exec "$0" "$@"`, addressSpaceLimitKB), bin}, args...)
+	cmd := exec.CommandContext(ctx, "/bin/sh", sh...)
+	cmd.Dir = dir
+	var so, se bytes.Buffer
+	cmd.Stdout, cmd.Stderr = &so, &se
+	start := time.Now()
+	err := cmd.Run()
+	r := &emit.Result{Stdout: so.String(), Stderr: se.String(), Wall: time.Since(start)}
+	if ctx.Err() == context.DeadlineExceeded {
+		r.TimedOut = true
+	}
+	if err != nil {
+		if ee, ok := err.(*exec.ExitError); ok {
+			r.ExitCode = ee.ExitCode()
+			if r.ExitCode < 0 {
+				r.Signaled = true
+			}
+		} else {
+			r.ExitCode = -2
+			r.Stderr += "\n" + err.Error()
+		}
 	}
 	return r
 }
@@ -263,9 +324,13 @@ func (c *c11) compileUnit(u *unit, sel []*comp) {
 		}
 		var r *emit.Result
 		if cp.T.Name == "go" {
+			c.load.RLock()
 			r = cp.H.Gen(cp.GoSub, u.Dir, u.Root, cp.S.Opts, cp.S.Extra...)
+			c.load.RUnlock()
 			if r.TimedOut {
+				c.load.Lock()
 				r = cp.H.Gen(cp.GoSub, u.Dir, u.Root, cp.S.Opts, cp.S.Extra...)
+				c.load.Unlock()
 			}
 			cp.OutDir = filepath.Join(cp.H.Dir, "gen", cp.GoSub)
 		} else {
@@ -306,6 +371,9 @@ func (c *c11) compileUnit(u *unit, sel []*comp) {
 		}
 		if gate && !cp.OK {
 			u.Rejected = true
+		}
+		if !cp.OK && cp.T.Name == "go" {
+			os.RemoveAll(cp.OutDir) // partial output must not reach go build
 		}
 	}
 }
